@@ -727,6 +727,10 @@ func (d *Data) handleMutationsRange(ctx *datastore.VersionedCtx, w http.Response
 		server.BadRequest(w, r, "only GET action allowed for /mutations-range endpoint")
 		return
 	}
+	if len(parts) < 6 {
+		server.BadRequest(w, r, "expect beginning and end of range to follow /mutations-range endpoint")
+		return
+	}
 
 	rangefmt := queryStrings.Get("rangefmt")
 	switch rangefmt {
